@@ -618,6 +618,17 @@ impl Rt<'_> {
 					self.differs(s.class(), format!("{x:?} became {y:?}"), &text);
 				}
 				self.bytes(ser(&y), &text, s.class());
+				// the same id as a `serde_json::Value` (what handlers and id providers pass around): the value that the
+				// conversion yields is the one on the wire, and the wire value converts back to the id
+				let as_value = serde_json::Value::from(x.clone());
+				let value_text = serde_json::to_string(&as_value).unwrap_or_default();
+				if value_text != text {
+					self.differs(&format!("{}:into-json-value", s.class()), format!("{x:?} converts to the JSON value {value_text}, its wire form is {text}"), &text);
+				}
+				match serde_json::from_str::<Value>(&text).map(SubscriptionId::try_from) {
+					Ok(Ok(z)) if z == x => {}
+					other => self.differs(&format!("{}:from-json-value", s.class()), format!("the wire form {text} of {x:?} converts from a JSON value to {other:?}"), &text),
+				}
 				CaseOut { text: Some(text), compared: true }
 			}
 			Spec::Request { id, method, params, owned } => {
@@ -756,7 +767,12 @@ impl Rt<'_> {
 			Ok(t) => ResponsePayload::success(T::from_text(t)),
 			Err(es) => ResponsePayload::error_borrowed(es.build(&raw)),
 		};
-		let mut x: Response<T> = Response::new(payload, id.build());
+		// (the constructor middleware uses to answer a call itself is the same message)
+		let mut x: Response<T> = if raw.is_some() || matches!(body, Ok(t) if t.len() % 2 == 1) {
+			Response::new_with_extensions(payload, id.build(), Default::default())
+		} else {
+			Response::new(payload, id.build())
+		};
 		if !v2 {
 			x.jsonrpc = None;
 		}
